@@ -96,7 +96,24 @@ class Gen:
                 cells.append(c)
         if r < 0.62:
             en = 'e' if rng.random() < 0.88 else 'd'
-            self.ops.append(f'emit {t} {en} new ' + ' '.join(args))
+            tgt = 'new'
+            if rng.random() < 0.18:
+                # through a convenience entry point of logs::Logger: same record as EmitLogRecord(severity, …)
+                via = rng.choice(['v', 'v', 'l4e', 'l4i', 'l3', 'l2', 'w4e', 'w4i', 'w3', 'w2'])
+                args, cells = [], []
+                sev = rng.choice(SIX) if via == 'v' or via[0] == 'w' else rng.choice([0, 1, 9, 13, 24, 255, rng.randrange(256)])
+                args.append(f'sev:{sev}')
+                if via == 'v':
+                    want = [rng.choice([k for k in ARG_SCALAR + ARG_CELL if k != 'sev'])] if rng.random() < 0.8 else []
+                else:
+                    want = [{'eid': 'eidn' if via.endswith('4e') and rng.random() < 0.7 else 'eid'}.get(k, k) for k in VIA_SHAPES[via][1:]]
+                for k in want:
+                    a, c = self.arg(kinds=[k])
+                    args.append(a)
+                    if c is not None:
+                        cells.append(c)
+                tgt = 'new:' + via
+            self.ops.append(f'emit {t} {en} {tgt} ' + ' '.join(args))
             live = en == 'e'
         elif r < 0.68:
             self.ops.append(f'emit {t} e null ' + ' '.join(args))
@@ -316,6 +333,32 @@ def p_arg(tok):
     raise Bad(tok)
 
 
+VIA_SHAPES = {'l4e': ['sev', 'eid', 'bodysv', 'attrs'], 'l4i': ['sev', 'eid', 'bodysv', 'attrs'], 'l3': ['sev', 'bodysv', 'attrs'],
+              'l2': ['sev', 'bodysv']}
+for _k in ('4e', '4i', '3', '2'):
+    VIA_SHAPES['w' + _k] = VIA_SHAPES['l' + _k]
+SIX = (1, 5, 9, 13, 17, 21)
+
+
+def check_via(via, toks):
+    """`emit … new:<via> args`: the record goes through a convenience entry point of logs::Logger - the variadic wrappers
+    Trace … Fatal (`v`), Log(severity, …) (`l*`) or the fixed-signature wrappers (`w*`); the shapes they accept"""
+    kinds = [re.split('[:#]', t)[0] for t in toks]
+    if not kinds or kinds[0] != 'sev':
+        raise Bad('via without severity')
+    sev = int(toks[0].split(':')[1])
+    if (via == 'v' or via.startswith('w')) and sev not in SIX:
+        raise Bad('no wrapper for this severity')
+    if via == 'v':
+        if len(kinds) > 2 or (len(kinds) == 2 and kinds[1] == 'sev'):
+            raise Bad('variadic wrapper shape')
+        return
+    if via not in VIA_SHAPES or kinds != VIA_SHAPES[via]:
+        raise Bad('via shape')
+    if via.endswith('4i') and len(toks[1].split(':')) != 2:
+        raise Bad('int64 event id has no name')
+
+
 def apply_arg(rec, a):
     k, v, cell = a
     if k == 'sev': rec['sev'] = v
@@ -367,9 +410,15 @@ def simulate(line):
         elif k == 'pop' and len(o) == 2: ops.append(('pop', p_small(o[1], 3)))
         elif k == 'create' and len(o) == 4 and o[2] in ('e', 'd'): ops.append(('create', p_small(o[1], 3), o[2] == 'e', p_small(o[3], 100000)))
         elif k == 'set' and len(o) == 3: ops.append(('set', p_small(o[1], 100000), [p_arg(o[2])]))
-        elif k == 'emit' and 4 <= len(o) <= 6 and o[2] in ('e', 'd'):
-            tgt = o[3] if o[3] in ('new', 'null') else p_small(o[3], 100000)
-            ops.append(('emit', p_small(o[1], 3), o[2] == 'e', tgt, [p_arg(a) for a in o[4:]]))
+        elif k == 'emit' and 4 <= len(o) <= 8 and o[2] in ('e', 'd'):
+            tg, via = (o[3][:3], o[3][4:]) if o[3].startswith('new:') else (o[3], None)
+            if via is None and len(o) > 6:
+                raise Bad('too many arguments')
+            tgt = tg if tg in ('new', 'null') else p_small(tg, 100000)
+            args = [p_arg(a) for a in o[4:]]
+            if via is not None:
+                check_via(via, o[4:])
+            ops.append(('emit', p_small(o[1], 3), o[2] == 'e', tgt, args))
         elif k in ('scribble', 'free') and len(o) == 2: ops.append((k, p_small(o[1], 100000)))
         elif k == 'flush' and len(o) == 1: ops.append(('flush',))
         else:
